@@ -59,7 +59,7 @@ Proof.
   intros H0 H1 Hal Hfk Hrd. pose proof Hfk as [Hf _]. set (pa := src - 1) in *.
   assert (Od : Z.odd src = true) by (rewrite Zodd_mod; replace (src mod 2) with 1 by lia; reflexivity).
   assert (Pa : (src mod W32 - 1) mod W32 = pa) by (unfold pa, W32 in *; lia).
-  unfold arm_patch in *. rewrite Od, Pa in *. replace (pa mod 4 =? 0) with true in * by (rewrite Hal; reflexivity).
+  unfold arm_patch in *. rewrite Od, Pa in *. change (8 <=? 7) with false in *. replace (pa mod 4 =? 0) with true in * by (rewrite Hal; reflexivity).
   cbn [fst snd andb negb] in *. split; [reflexivity|].
   cbn [flat_map] in Hrd. rewrite app_nil_r in Hrd.
   replace (le_bytes 4 (t16_ldr_bx 7)) with (le_bytes 2 0x4F00 ++ le_bytes 2 0x4738) in Hrd by reflexivity. rewrite <- app_assoc in Hrd.
@@ -93,7 +93,7 @@ Proof.
   intros H0 H1 Hal Hfk Hrd. pose proof Hfk as [Hf _]. set (pa := src - 1) in *.
   assert (Od : Z.odd src = true) by (rewrite Zodd_mod; replace (src mod 2) with 1 by lia; reflexivity).
   assert (Pa : (src mod W32 - 1) mod W32 = pa) by (unfold pa, W32 in *; lia).
-  unfold arm_patch in *. rewrite Od, Pa in *. replace (pa mod 4 =? 0) with false in * by (rewrite Hal; reflexivity).
+  unfold arm_patch in *. rewrite Od, Pa in *. change (8 <=? 7) with false in *. replace (pa mod 4 =? 0) with false in * by (rewrite Hal; reflexivity).
   cbn [fst snd andb negb] in *. split; [reflexivity|].
   cbn [flat_map] in Hrd. rewrite app_nil_r in Hrd.
   replace (le_bytes 4 (t16_ldr_bx 7)) with (le_bytes 2 0x4F00 ++ le_bytes 2 0x4738) in Hrd by reflexivity. rewrite <- app_assoc in Hrd.
@@ -125,15 +125,92 @@ Proof.
   split; [apply setrr_same|]. split; [|reflexivity]. intros r Hr. apply setrr_other; auto.
 Qed.
 
+(* ---- Thumb state, the repaired sequence (Thumb-2, through ip = r12): entry = 0 mod 4 ---- *)
+Theorem arm_reach_t32ip_aligned src fake m regs :
+  1 <= src -> src - 1 + 12 <= W32 -> (src - 1) mod 4 = 0 -> fake_ok fake ->
+  read m (src - 1) 12 = snd (arm_patch 12 12 src fake) -> fst (arm_patch 12 12 src fake) = src - 1 /\
+  exists st, rrun 2 {| rpc := src - 1; rthumb := true; rr := regs; rmem := m |} = Some st /\ landed fake st /\
+             rr st 12 = fake /\ (forall r, r <> 12 -> rr st r = regs r) /\ rmem st = m.
+Proof.
+  intros H0 H1 Hal Hfk Hrd. pose proof Hfk as [Hf _]. set (pa := src - 1) in *.
+  assert (Od : Z.odd src = true) by (rewrite Zodd_mod; replace (src mod 2) with 1 by lia; reflexivity).
+  assert (Pa : (src mod W32 - 1) mod W32 = pa) by (unfold pa, W32 in *; lia).
+  unfold arm_patch in *. rewrite Od, Pa in *. change (8 <=? 12) with true in *. replace (pa mod 4 =? 0) with true in * by (rewrite Hal; reflexivity).
+  cbn [fst snd andb negb] in *. split; [reflexivity|].
+  cbn [flat_map] in Hrd. rewrite app_nil_r in Hrd.
+  replace (le_bytes 4 (t32_ldr_w 12)) with (le_bytes 2 0xF8DF ++ le_bytes 2 0xC004) in Hrd by reflexivity.
+  replace (le_bytes 4 (t16_bx_nop 12)) with (le_bytes 2 0x4760 ++ le_bytes 2 0x46C0) in Hrd by reflexivity. rewrite <- !app_assoc in Hrd.
+  change 12%nat with (length (le_bytes 2 0xF8DF ++ le_bytes 2 0xC004 ++ le_bytes 2 0x4760 ++ le_bytes 2 0x46C0 ++ le_bytes 4 (fake mod W32))) in Hrd.
+  apply read_split in Hrd. destruct Hrd as [R0 R']. apply read_split in R'. destruct R' as [R1 R']. apply read_split in R'. destruct R' as [R2 R'].
+  apply read_split in R'. destruct R' as [_ R3].
+  unfold zlen in *. rewrite !le_bytes_len in *. cbn [Z.of_nat Pos.of_succ_nat Pos.succ] in *.
+  replace (pa + 2 + 2) with (pa + 4) in * by lia. replace (pa + 4 + 2 + 2) with (pa + 8) in R3 by lia.
+  assert (F0 : le_val (read m pa 2) = 0xF8DF) by (rewrite R0; reflexivity).
+  assert (F1 : le_val (read m (pa + 2) 2) = 0xC004) by (rewrite R1; reflexivity).
+  assert (F2 : le_val (read m (pa + 4) 2) = 0x4760) by (rewrite R2; reflexivity).
+  assert (F3 : le_val (read m (pa + 8) 4) = fake) by (rewrite R3, le4, Z.mod_mod by (unfold W32; lia); apply Z.mod_small; unfold W32 in *; lia).
+  cbn [rrun]. unfold rstep at 1, rdecode. cbn [rthumb rmem rpc]. rewrite F0, F1.
+  replace (0xE800 <=? 0xF8DF) with true by reflexivity. replace (decode_t32 0xF8DF 0xC004) with (Some (RLdrLit 12 true 4 4)) by reflexivity.
+  unfold rexec. cbn [rthumb rpc rmem rr]. replace (12 =? 15) with false by reflexivity.
+  assert (A : ((pa + 4 - (pa + 4) mod 4) + 4) mod W32 = pa + 8) by (unfold W32 in *; lia). rewrite A, F3.
+  replace ((pa + 4) mod W32) with (pa + 4) by (unfold W32 in *; lia).
+  unfold rstep, rdecode. cbn [rthumb rmem rpc]. rewrite F2.
+  replace (0xE800 <=? 0x4760) with false by reflexivity. replace (decode_t16 0x4760) with (Some (RBx 12)) by reflexivity.
+  match goal with |- context[rexec ?s (RBx 12)] => destruct (bx_lands s 12 fake Hfk) as (st & E & L & Rr & Rm) end.
+  { cbn [rr]. apply setrr_same. }
+  rewrite E. exists st. split; [reflexivity|]. split; [exact L|]. rewrite Rr, Rm. cbn [rr rmem].
+  split; [apply setrr_same|]. split; [|reflexivity]. intros r Hr. apply setrr_other; auto.
+Qed.
+
+(* ---- the repaired sequence, entry = 2 mod 4: Align(PC,4) is two bytes lower, the literal directly follows the bx ---- *)
+Theorem arm_reach_t32ip_unaligned src fake m regs :
+  1 <= src -> src - 1 + 12 <= W32 -> (src - 1) mod 4 = 2 -> fake_ok fake ->
+  read m (src - 1) 12 = snd (arm_patch 12 12 src fake) -> fst (arm_patch 12 12 src fake) = src - 1 /\
+  exists st, rrun 2 {| rpc := src - 1; rthumb := true; rr := regs; rmem := m |} = Some st /\ landed fake st /\
+             rr st 12 = fake /\ (forall r, r <> 12 -> rr st r = regs r) /\ rmem st = m.
+Proof.
+  intros H0 H1 Hal Hfk Hrd. pose proof Hfk as [Hf _]. set (pa := src - 1) in *.
+  assert (Od : Z.odd src = true) by (rewrite Zodd_mod; replace (src mod 2) with 1 by lia; reflexivity).
+  assert (Pa : (src mod W32 - 1) mod W32 = pa) by (unfold pa, W32 in *; lia).
+  unfold arm_patch in *. rewrite Od, Pa in *. change (8 <=? 12) with true in *. replace (pa mod 4 =? 0) with false in * by (rewrite Hal; reflexivity).
+  cbn [fst snd andb negb] in *. split; [reflexivity|].
+  cbn [flat_map] in Hrd. rewrite app_nil_r in Hrd.
+  assert (Fn : firstn 6 (le_bytes 4 (t32_ldr_w 12) ++ le_bytes 4 (t16_bx_nop 12) ++ le_bytes 4 (fake mod W32)) ++
+               skipn 8 (le_bytes 4 (t32_ldr_w 12) ++ le_bytes 4 (t16_bx_nop 12) ++ le_bytes 4 (fake mod W32)) ++ [0xC0; 0x46]
+               = le_bytes 2 0xF8DF ++ le_bytes 2 0xC004 ++ le_bytes 2 0x4760 ++ le_bytes 4 (fake mod W32) ++ [0xC0; 0x46]) by reflexivity.
+  rewrite Fn in Hrd.
+  change 12%nat with (length (le_bytes 2 0xF8DF ++ le_bytes 2 0xC004 ++ le_bytes 2 0x4760 ++ le_bytes 4 (fake mod W32) ++ [0xC0; 0x46])) in Hrd.
+  apply read_split in Hrd. destruct Hrd as [R0 R']. apply read_split in R'. destruct R' as [R1 R']. apply read_split in R'. destruct R' as [R2 R'].
+  apply read_split in R'. destruct R' as [R3 _].
+  unfold zlen in *. rewrite !le_bytes_len in *. cbn [Z.of_nat Pos.of_succ_nat Pos.succ] in *.
+  replace (pa + 2 + 2) with (pa + 4) in * by lia. replace (pa + 4 + 2) with (pa + 6) in R3 by lia.
+  assert (F0 : le_val (read m pa 2) = 0xF8DF) by (rewrite R0; reflexivity).
+  assert (F1 : le_val (read m (pa + 2) 2) = 0xC004) by (rewrite R1; reflexivity).
+  assert (F2 : le_val (read m (pa + 4) 2) = 0x4760) by (rewrite R2; reflexivity).
+  assert (F3 : le_val (read m (pa + 6) 4) = fake) by (rewrite R3, le4, Z.mod_mod by (unfold W32; lia); apply Z.mod_small; unfold W32 in *; lia).
+  cbn [rrun]. unfold rstep at 1, rdecode. cbn [rthumb rmem rpc]. rewrite F0, F1.
+  replace (0xE800 <=? 0xF8DF) with true by reflexivity. replace (decode_t32 0xF8DF 0xC004) with (Some (RLdrLit 12 true 4 4)) by reflexivity.
+  unfold rexec. cbn [rthumb rpc rmem rr]. replace (12 =? 15) with false by reflexivity.
+  assert (A : ((pa + 4 - (pa + 4) mod 4) + 4) mod W32 = pa + 6) by (unfold W32 in *; lia). rewrite A, F3.
+  replace ((pa + 4) mod W32) with (pa + 4) by (unfold W32 in *; lia).
+  unfold rstep, rdecode. cbn [rthumb rmem rpc]. rewrite F2.
+  replace (0xE800 <=? 0x4760) with false by reflexivity. replace (decode_t16 0x4760) with (Some (RBx 12)) by reflexivity.
+  match goal with |- context[rexec ?s (RBx 12)] => destruct (bx_lands s 12 fake Hfk) as (st & E & L & Rr & Rm) end.
+  { cbn [rr]. apply setrr_same. }
+  rewrite E. exists st. split; [reflexivity|]. split; [exact L|]. rewrite Rr, Rm. cbn [rr rmem].
+  split; [apply setrr_same|]. split; [|reflexivity]. intros r Hr. apply setrr_other; auto.
+Qed.
+
 (* saved range = overwritten range: both are the 12 bytes at the entry with the Thumb bit cleared *)
 Theorem arm_patch_len ra rt src fake : length (snd (arm_patch ra rt src fake)) = 12%nat.
-Proof. unfold arm_patch. cbn [snd]. destruct (Z.odd src && negb (_ =? 0)); destruct (Z.odd src); reflexivity. Qed.
+Proof. unfold arm_patch. destruct (Z.odd src); destruct (8 <=? rt); cbn [andb snd negb];
+  try reflexivity; match goal with |- context[?a mod 4 =? 0] => destruct (a mod 4 =? 0) end; reflexivity. Qed.
 Theorem arm_patch_addr ra rt src fake : 0 <= src < W32 ->
   fst (arm_patch ra rt src fake) = if Z.odd src then src - 1 else src.
-Proof. intros H. unfold arm_patch. cbn [fst]. destruct (Z.odd src) eqn:O; auto.
-  assert (1 <= src) by (destruct (Z.eq_dec src 0); [subst; discriminate|lia]). unfold W32 in *. lia. Qed.
+Proof. intros H. unfold arm_patch. destruct (Z.odd src) eqn:O; destruct (8 <=? rt); cbn [andb fst]; auto;
+  (assert (1 <= src) by (destruct (Z.eq_dec src 0); [subst; discriminate|lia])); unfold W32 in *; lia. Qed.
 
 (* callee-saved registers: the repaired ARM-state sequence uses r12 ... *)
 Theorem arm_scratch_a32_ok : ~ In 12 aapcs_preserved. Proof. cbn. lia. Qed.
-(* ... the pinned one used r9, and the Thumb sequence uses r7: both must be preserved by a callee *)
+(* ... the pinned one used r9, and the pinned Thumb sequence used r7: both must be preserved by a callee *)
 Theorem arm_scratch_refuted_pinned : In 9 aapcs_preserved /\ In 7 aapcs_preserved. Proof. cbn. lia. Qed.
